@@ -101,7 +101,8 @@ Print Assumptions C09_sts_applied_without_disconnect_record.
 (* ... and it is applied to EVERY connection: for every configured server list
    (several entries, repeated hostnames), every state of the policy store and
    of ServersMixin, and every history of store-policy / record-disconnection /
-   _getNextServer events, every server returned by _getNextServer whose host had
+   _getNextServer / restart (networks.conf written and read back; modelled as the
+   store surviving, the reader itself is C16) events, every server returned by _getNextServer whose host had
    an unexpired stored policy when the call was made has the policy's port and
    force_tls_verification = true.  (The policy is applied to the popped entry at
    pop time; pinned by the table extractor and checked step by step against the
